@@ -1,6 +1,6 @@
 (* C15/Registry.v — entry points used by the correspondence check *)
 From Coq Require Import ZArith List String.
-From FV Require Import Base.Ser Base.Res C15.Model.
+From FV Require Import Base.Ser Base.Res C15.Model C15.ModelDeltas.
 Import ListNotations.
 Open Scope string_scope.
 
@@ -16,6 +16,8 @@ Definition reg : registry := [
   ("write_uint32var", run1 write_uint32var);
   ("read_uint32var", run1 read_uint32var);
   ("decrypt", run2 decrypt);
-  ("encrypt", run2 encrypt)
+  ("encrypt", run2 encrypt);
+  ("compileDeltaValues", run1 compileDeltaValues);
+  ("decompileDeltas", run2 decompileDeltas)
 ].
 Definition fv_entry := dispatch reg.
